@@ -1,7 +1,7 @@
 #!/usr/bin/env bash
 # usage: tools/soak.sh <first-seed> <last-seed> [tier]   -- every check, several PRNG seeds, unchanged tree.
 # Prints one line per (seed, check) that is not "exit 0 without VIOLATION"; silent otherwise.
-cd /verif
+cd "$(dirname "$0")/.."
 tier=${3:-quick}
 for seed in $(seq $1 $2); do
   for id in C01 C02 C03 C04 C05 C06 C07 C08 C09 C10 C11 C12 C13 C14 C15 C16 C17 C18 C19 C20; do
